@@ -444,6 +444,8 @@ class CallsMixin:
     def comp_filter(self, e, g, st, d):
         """[key|value for key, value in D.items() if c(key)]: a fresh list in bijection with the selected keys (Skolem functions keyof/idxof)"""
         tgt = g.target
+        if isinstance(tgt, ast.Name) and isinstance(e.elt, ast.Name) and e.elt.id == tgt.id and len(g.ifs) == 1:
+            return self.comp_filter_list(e, g, st, d)
         if not (isinstance(tgt, ast.Tuple) and len(tgt.elts) == 2 and all(isinstance(t, ast.Name) for t in tgt.elts) and isinstance(e.elt, ast.Name)
                 and e.elt.id in (tgt.elts[0].id, tgt.elts[1].id) and len(g.ifs) == 1):
             raise Unsupported(f"filter comprehension without a registered idiom: {ast.unparse(e)[:80]}")
@@ -473,6 +475,47 @@ class CallsMixin:
             s1.assume(z3.ForAll([k], z3.Implies(sel(k), z3.And(0 <= idxof(k), idxof(k) < n, keyof(idxof(k)) == k))))
             s1.set_elems(r.term, rty, new)
             r.py = ("dictfilter", dct, keyof, idxof, cond_k, k, want_key)
+            out.append((s1, r))
+        return out
+
+    def comp_filter_list(self, e, g, st, d):
+        """[x for x in xs if c(x)] over a list of references: a fresh list; src(i) / dst(j) are Skolem functions between result and source
+        positions (strictly increasing: the order of the source is kept); the result holds exactly the source elements satisfying c"""
+        out = []
+        for s1, it in self.ev(g.iter, st, d):
+            s1 = s1.copy()
+            if it.ty[0] != "list" or strip_opt(it.ty[1])[0] != "ref":
+                raise Unsupported(f"filter comprehension over a non-reference list: {ast.unparse(e)[:80]}")
+            ety = it.ty[1]
+            n = s1.length(it.term); sel = s1.elems(it.term, ety)
+            x = z3.Const(fresh_name("x_fl"), REF)
+            sb = s1.peek(); sb.env = dict(s1.env); sb.env[g.target.id] = V(ety, x)
+            sb.obl = []; sb.quiet = False; nesc = len(self.escaped)
+            res = self.ev(g.ifs[0], sb, d)
+            if len(res) != 1 or len(self.escaped) != nesc:
+                raise Unsupported("filter condition branches or raises")
+            c = truth(res[0][1], res[0][0])
+            extra = res[0][0].pc[len(s1.pc):]
+            i, j = z3.Int(fresh_name("i_fl")), z3.Int(fresh_name("j_fl"))
+            for ob in sb.obl:       # preconditions of calls in the condition hold for every element
+                s1.oblige("forall-elem:" + ob["name"], z3.ForAll([j], z3.Implies(z3.And(0 <= j, j < n), z3.substitute(z3.Implies(z3.And(*ob["pc"][len(s1.pc):]), ob["goal"]), (x, z3.Select(sel, j))))), ob["kind"])
+            cx = lambda t: z3.substitute(z3.And(c, *extra) if extra else c, (x, t))
+            cond = lambda t: z3.substitute(c, (x, t))
+            if extra:
+                s1.assume(z3.ForAll([j], z3.Implies(z3.And(0 <= j, j < n), z3.substitute(z3.And(*extra), (x, z3.Select(sel, j))))))
+            r = s1.new_list(ety, "filtered")
+            nr = z3.Const(fresh_name("n_fl"), z3.IntSort()); s1.assume(z3.And(nr >= 0, nr <= n)); s1.set_len(r.term, nr)
+            new = z3.FreshConst(z3.ArraySort(z3.IntSort(), REF), "fl_el")
+            src = z3.Function(fresh_name("fl_src"), z3.IntSort(), z3.IntSort()); dst = z3.Function(fresh_name("fl_dst"), z3.IntSort(), z3.IntSort())
+            s1.assume(z3.ForAll([i], z3.Implies(z3.And(0 <= i, i < nr), z3.And(0 <= src(i), src(i) < n, z3.Select(new, i) == z3.Select(sel, src(i)), cond(z3.Select(sel, src(i))), dst(src(i)) == i))))
+            s1.assume(z3.ForAll([j], z3.Implies(z3.And(0 <= j, j < n, cond(z3.Select(sel, j))), z3.And(0 <= dst(j), dst(j) < nr, src(dst(j)) == j))))
+            i2 = z3.Int(fresh_name("i2_fl"))
+            s1.assume(z3.ForAll([i, i2], z3.Implies(z3.And(0 <= i, i < i2, i2 < nr), src(i) < src(i2))))
+            s1.set_elems(r.term, ety, new)
+            newmem = z3.FreshConst(z3.ArraySort(REF, z3.BoolSort()), "fl_mem")
+            s1.assume(z3.ForAll([x], z3.Select(newmem, x) == z3.Exists([i], z3.And(0 <= i, i < nr, z3.Select(new, i) == x))))
+            s1.set_mem(r.term, newmem)
+            r.py = ("filterlist", it, src, dst)
             out.append((s1, r))
         return out
 
